@@ -77,6 +77,7 @@ def do_chunk(chunk):
             continue
         h2 = rt.hash_of(r)
         acc.count("rehashes")
+        acc.count("rh/" + m)
         if h2 != h:
             acc.violation("%s/%s/%s" % (PID, "rehash-" + vk, m),
                           "method=%s form=%s phrase=%s setting=%r H=%r rehash-with=%r got=%r" % (
@@ -113,4 +114,5 @@ def run(tier):
     return run_.finish(cov, assumptions=[
         "cost parameters above the budget are never hashed",
         "sanitizer death in the first call is counted inconclusive here (C04 judges it)"],
-        min_conclusive=1000, conclusive=int(a.n.get("rehashes", 0)))
+        min_conclusive=1000, conclusive=int(a.n.get("rehashes", 0)),
+        required={m: a.n.get("rh/" + m, 0) for m in gen.METHODS})
